@@ -61,11 +61,31 @@ ACTS = [[dict(type=0, port=2, max_len=0)],
          dict(type=4, dl_addr=b"\x0a" * 6), dict(type=0, port=3, max_len=0)],
         [dict(type=5, dl_addr=b"\x0b" * 6),
          dict(type=0, port=OA.OFPP_CONTROLLER, max_len=64),
-         dict(type=4, dl_addr=b"\x0c" * 6), dict(type=0, port=2, max_len=0)]]
+         dict(type=4, dl_addr=b"\x0c" * 6), dict(type=0, port=2, max_len=0)],
+        # ... rewriting below the Ethernet header (the stored packet's inner
+        # headers are its own as well)
+        [dict(type=0, port=OA.OFPP_CONTROLLER, max_len=0xffff),
+         dict(type=6, nw_addr=0x01020304), dict(type=10, tp_port=53),
+         dict(type=0, port=3, max_len=0)],
+        [dict(type=0, port=OA.OFPP_CONTROLLER, max_len=64),
+         dict(type=1, vlan_vid=7), dict(type=2, vlan_pcp=5),
+         dict(type=0, port=2, max_len=0)],
+        [dict(type=8, nw_tos=0x28),
+         dict(type=0, port=OA.OFPP_CONTROLLER, max_len=0xffff),
+         dict(type=7, nw_addr=0xc0a80001), dict(type=9, tp_port=80),
+         dict(type=0, port=OA.OFPP_FLOOD, max_len=0)]]
 
 
 def frame (uid, dst, size):
   payload = struct.pack("!L", uid) + bytes((uid + i) & 0xff for i in range(size))
+  # (every third an IPv4/UDP datagram, every third VLAN-tagged: the rewrites
+  #  of the action lists have headers to work on)
+  if uid % 3 == 1:
+    return F.eth(dst, SRC, 0x0800, F.ipv4("10.0.0.1", "10.0.0.2", 17, F.udp(
+      1000 + uid % 1000, 2000, payload, src="10.0.0.1", dst="10.0.0.2"), ident=uid & 0xffff))
+  if uid % 3 == 2:
+    return F.eth(dst, SRC, 0x0800, F.ipv4("10.0.0.3", "10.0.0.4", 6, F.tcp(
+      3000, 4000 + uid % 1000, payload, src="10.0.0.3", dst="10.0.0.4")), vlan=(1, 0, 100))
   return F.eth(dst, SRC, 0x88b5, payload)
 
 
